@@ -48,6 +48,10 @@ pub enum Op {
     EvalSlot { slot: usize, point: u32, mode: u8 },
     /// take the expression out of the slot and drop the slot's handle
     Unpublish { slot: usize },
+    /// `k` consecutive evaluations of shared expression j by one thread, at the points
+    /// `point`, `point + 24`, `point + 48`, ...: the same shapes (array lengths, variants) with
+    /// different values, back to back (anything keyed by the arguments' shape or address is hit)
+    EvalBurst { j: usize, point: u32, mode: u8, k: u8 },
 }
 
 impl Op {
@@ -64,6 +68,7 @@ impl Op {
             Op::Publish { .. } => "Publish",
             Op::EvalSlot { .. } => "EvalSlot",
             Op::Unpublish { .. } => "Unpublish",
+            Op::EvalBurst { .. } => "EvalBurst",
         }
     }
     pub fn shared_index(&self) -> Option<usize> {
@@ -73,6 +78,7 @@ impl Op {
             | Op::Convert { j }
             | Op::Derive { j, .. }
             | Op::SerdeRoundTrip { j }
+            | Op::EvalBurst { j, .. }
             | Op::Drop { j } => Some(*j),
             _ => None,
         }
@@ -132,7 +138,9 @@ const L_VAL: Lang = Lang {
     vars: &["x", "y", "z", "{v w}", "k", "m"],
     // "fact(2.5)" and "to_int([1,2])" fold to the constant `Val::Error(ExError{..})`: an owned error
     // message inside a shared expression that every evaluation clones and drops
-    lits: &["1", "2", "3.5", "true", "false", "[1,2,3]", "[0.5, 2]", "0", "7", "2.0", "fact(2.5)", "to_int([1,2])", "13", "15", "20", "fact(14)"],
+    lits: &["1", "2", "3.5", "true", "false", "[1,2,3]", "[0.5, 2]", "0", "7", "2.0", "fact(2.5)", "to_int([1,2])", "13", "15", "20", "fact(14)",
+        // comparisons that are decided by the last bits (0.1+0.2 is 1 ulp above 0.3)
+        "(0.1+0.2==0.3)", "(0.1+0.2!=0.3)", "(0.1+0.2)", "0.3"],
 };
 /// array-centred texts of the value type: every variable is meant to be bound to an array
 const L_VAL_ARR: Lang = Lang {
@@ -429,7 +437,9 @@ pub fn gen_workload(seed: u64, cfg: GenCfg) -> Workload {
             let j = r.below(n_shared);
             let small = shared[j].n_operands <= 40 || (shared[j].tower && r.chance(1, 4));
             let roll = r.below(w_eval + w_parse + w_other);
-            let op = if roll < w_eval {
+            let op = if roll < w_eval && r.chance(1, 6) {
+                Op::EvalBurst { j, point: r.below(24) as u32, mode: r.below(4) as u8, k: r.range(2, 4) as u8 }
+            } else if roll < w_eval {
                 Op::Eval {
                     j,
                     point: r.below(24) as u32,
